@@ -72,7 +72,11 @@ def strat_history(draw, tier):
                                      3000, 32764]))
         if size is not None and draw(st.booleans()):
             size = 4 * draw(st.integers(128, 8191))
+        # the operating system may refuse one send (ECONNREFUSED after an
+        # ICMP error): the datagram handed to that send is NOT transmitted
+        refuse = draw(st.sampled_from([None] * 14 + [0, 1, 2, 4, 7]))
         calls.append({
+            "refuse_send": refuse,
             "via": draw(st.sampled_from(["boot", "boot", "controller"])),
             "preset": preset, "extra": extra,
             "style": draw(st.sampled_from(["kwargs", "sv_overrides", "both",
@@ -157,18 +161,45 @@ def check_history(case):
                     options = dict(shared, **options)
                 snapshot = None if passed is None else dict(passed)
                 t_call = h.clock.now
-                with sut("boot"):
-                    if call["via"] == "boot":
-                        structs = rboot.boot(host, **kwargs)
-                    else:
-                        from rig.machine_control import MachineController
-                        mc = MachineController(host)
-                        ok = mc.boot(only_if_needed=bool(i % 2),
-                                     check_booted=False, **kwargs)
-                        require(ok is True, "MachineController.boot did not "
-                                "report that it booted the machine", {})
-                        structs = mc.structs
-                        t_call = None
+                refused = []
+                if call.get("refuse_send") is not None:
+                    counter = [0]
+
+                    def fault(sock, data, k=call["refuse_send"],
+                              counter=counter, refused=refused):
+                        counter[0] += 1
+                        if counter[0] - 1 == k:
+                            refused.append(k)
+                            return ConnectionRefusedError(
+                                111, "Connection refused")
+                        return None
+                    h.net.send_fault = fault
+                else:
+                    h.net.send_fault = None
+                try:
+                    with sut("boot", (OSError,)):
+                        if call["via"] == "boot":
+                            structs = rboot.boot(host, **kwargs)
+                        else:
+                            from rig.machine_control import MachineController
+                            mc = MachineController(host)
+                            ok = mc.boot(only_if_needed=bool(i % 2),
+                                         check_booted=False, **kwargs)
+                            require(ok is True, "MachineController.boot did "
+                                    "not report that it booted the machine",
+                                    {})
+                            structs = mc.structs
+                            t_call = None
+                except OSError as e:
+                    require(refused, "boot raises %s although every send "
+                            "succeeded" % type(e).__name__, {"call": i})
+                    classes.add("send-refused-reported")
+                    h.net.send_fault = None
+                    continue
+                finally:
+                    h.net.send_fault = None
+                if refused:
+                    classes.add("send-refused-unreported")
                 if passed is not None:
                     require(passed == snapshot, "boot modified the "
                             "sv_overrides dictionary passed by the caller",
